@@ -53,6 +53,8 @@ impl Bytes {
     #[verifier::external_body]
     pub fn len(&self) -> (r: usize) ensures r == self@.len() { unimplemented!() }
     #[verifier::external_body]
+    pub fn is_empty(&self) -> (r: bool) ensures r == (self@.len() == 0) { unimplemented!() }
+    #[verifier::external_body]
     pub fn split_to(&mut self, n: usize) -> (r: Bytes)
         requires n <= old(self)@.len(),     // bytes::Bytes::split_to panics otherwise
         ensures r@ == old(self)@.take(n as int), final(self)@ == old(self)@.skip(n as int),
